@@ -334,14 +334,43 @@ func init() {
 		}()
 		return strings.Join(toks, " ")
 	})
+	// bchunk <chunksize> <withEOF> <ioerr> x<bytes>: plain full traversal with a chunking source
+	register("bchunk", func(a []string) string {
+		if len(a) < 4 {
+			return "badinput"
+		}
+		src, _, ok := newSrc(a[2:])
+		cs, ok2 := argU(a, 0)
+		if !ok || !ok2 {
+			return "badinput"
+		}
+		src.chunk = int(cs)
+		src.withEOF = a[1] == "1"
+		return strings.Join(traverse(ion.NewReader(src), 4*len(src.data)+16), " ")
+	})
+	// balloc <ioerr> x<bytes>: bytes allocated by a plain full traversal (runtime.MemStats.TotalAlloc delta)
+	register("balloc", func(a []string) string {
+		src, _, ok := newSrc(a)
+		if !ok {
+			return "badinput"
+		}
+		var m0, m1 runtime.MemStats
+		runtime.GC()
+		runtime.ReadMemStats(&m0)
+		toks := traverse(ion.NewReader(src), 4*len(src.data)+16)
+		runtime.ReadMemStats(&m1)
+		last := ""
+		if len(toks) > 0 {
+			last = toks[len(toks)-1]
+		}
+		return fmt.Sprintf("ok %d %s", m1.TotalAlloc-m0.TotalAlloc, last)
+	})
 	// btrav <ioerr> x<bytes>: plain full traversal
 	register("btrav", func(a []string) string {
 		src, _, ok := newSrc(a)
 		if !ok {
 			return "badinput"
 		}
-		var ms0 runtime.MemStats
-		runtime.ReadMemStats(&ms0)
 		toks := traverse(ion.NewReader(src), 4*len(src.data)+16)
 		return strings.Join(toks, " ")
 	})
